@@ -418,7 +418,7 @@ def parse_body(f, body):
             while not body[j].strip().startswith(']'):
                 line += ' ' + body[j].strip(); j += 1
             line += ' ]'; j += 1
-        if re.search(r'\binvoke\b', line) and ' unwind label ' not in line:
+        if re.match(r'\s*(%\S+ = )?invoke\b', line) and ' unwind label ' not in line:
             while j < len(body) and ' unwind label ' not in line:
                 line += ' ' + body[j].strip(); j += 1
         if re.search(r'= landingpad\b', line):
@@ -577,6 +577,8 @@ class Emit:
         if k == 'cexpr':
             if v.op == 'gep':
                 return s.gep_expr(v.bt, [ (o.ty, s.val(o)) for o in v.ops ])
+            if M1PTR and v.op == 'inttoptr' and v.ops[0].kind == 'int' and v.ops[0].val in (-1, (1 << 64) - 1):
+                return '((%s)&vp_m1_obj)' % s.ct(t)   # --m1ptr: the sentinel pointer (T*)-1 is the address of a dedicated object
             if v.op in ('bitcast', 'inttoptr', 'addrspacecast'):
                 return '((%s)%s)' % (s.ct(t), s.val(v.ops[0]))
             if v.op == 'ptrtoint':
@@ -620,7 +622,8 @@ class Emit:
         if n.startswith('"'): n = n[1:-1]
         return 'v_' + re.sub(r'[^A-Za-z0-9_]', '_', n)
 
-    def gep_expr(s, bt, ops):
+    def gep_expr(s, bt, ops, syms=None):
+        # syms (optional list): receives (index C expression, array length) for every non-constant array index of the path
         # ops: [(ty, cexpr)] first is base pointer
         base = ops[0][1]
         e = '((%s*)%s)' % (s.ct(bt), base) if not isinstance(bt, TVoid) else base
@@ -643,6 +646,7 @@ class Emit:
                 cur = r.els[k]
             elif isinstance(r, TArr):
                 lv = '%s.a[%s]' % (lv, sidx)
+                if syms is not None and not re.fullmatch(r'\(\(int\d+_t\)\(\(u\d+\)\d+ull\)\)', sidx): syms.append((sidx, r.n))
                 cur = r.el
             else:
                 raise NotImplementedError('gep into %r' % r)
@@ -690,6 +694,7 @@ class FnTr:
         s.E = E; s.f = f; s.M = E.M
         s.outname = outname or cname(f.name)
         s.thread = thread; s.nvis = 0; s.private = set(); s.cuts = []; s.atomic_callees = set(); s.spin_cuts = 0
+        s.lval = {}   # --lvalpath: SSA name of a pointer -> (C lvalue expression it points to, IR type of that lvalue)
         s.decl = collections.OrderedDict()  # cname -> ctype
         s.code = []
         s.tmpn = 0
@@ -735,9 +740,28 @@ class FnTr:
             parsed[bn] = pl
         if s.thread:
             s.first_in_block = {}
+            # SSA names whose value depends on memory or a call result (fixpoint over operands)
+            md = set(); insts_ = []
+            for bn, pl in parsed.items():
+                for toks in pl:
+                    if len(toks) > 2 and toks[1][1] == '=':
+                        d_ = toks[0][1]; op_ = toks[2][1]
+                        if op_ in ('tail', 'notail', 'musttail'): op_ = toks[3][1]
+                        if op_ in ('load', 'cmpxchg', 'atomicrmw', 'call', 'invoke', 'landingpad'): md.add(d_)
+                        else: insts_.append((d_, [v for k, v in toks[3:] if k == 'lid']))
+            ch_ = True
+            while ch_:
+                ch_ = False
+                for d_, ops_ in insts_:
+                    if d_ not in md and any(o in md for o in ops_): md.add(d_); ch_ = True
+            s.memderived = md
             order, s.backedges = s.cfg_order(parsed)
             s.classify_loops(parsed)
             parsed = collections.OrderedDict((bn, parsed[bn]) for bn in order)
+        elif LOOPORDER:
+            # --looporder (seq mode): emit blocks so that every natural loop is textually contiguous and its exits follow it;
+            # cbmc then sees exactly the real back edges as backward gotos (LLVM's layout makes it re-execute code per iteration)
+            parsed = collections.OrderedDict((bn, parsed[bn]) for bn in s.loop_order(parsed))
         for bn, pl in parsed.items():
             s.code.append('%s: ;' % s.label(bn))
             s.curblock = bn
@@ -785,10 +809,10 @@ class FnTr:
             for n, ct in s.decl.items():
                 if n in argn: continue
                 lines.append('  static %s %s;' % (ct, n))
-            lines.append('  unsigned vp_resume = 0, vp_jump = 0; vp_blocked = 0; static u8* vp_lp_exc;')
+            lines.append('  unsigned vp_resume = 0, vp_jump = 0, vp_cs0 = vp_cs, vp_pc0 = vp_pc; vp_blocked = 0; static u8* vp_lp_exc;')
             for c in s.code:
                 lines.append('  ' + c)
-            lines.append('  END: if (!vp_fin) { vp_pc = vp_jump ? vp_resume : vp_cs; }')
+            lines.append('  END: if (!vp_fin) { if (vp_blocked && vp_resume != vp_pc0) vp_changed = 1;  /* parked somewhere else than where the slice began: progress */ vp_pc = vp_jump ? vp_resume : vp_cs0; }')
             lines.append('}')
             for t, an in f.args:
                 lines.append('#undef %s' % E.lname(an))
@@ -855,15 +879,22 @@ class FnTr:
         i = 2 if hasdest else 0
         op = toks[i][1]
         if op in ('tail', 'notail', 'musttail'): i += 1; op = toks[i][1]
+        if op == 'load' and IMMUT and s.lval:
+            # --immutable (needs --lvalpath): a load whose lvalue path matches is not a scheduling point and is re-evaluated on every
+            # replay (the harness promises, and should assert, that the location never changes while the threads run); the loaded
+            # pointer then stays a constant for cbmc's symex instead of "object or not yet loaded"
+            lids = [v for k, v in toks[i + 1:] if k == 'lid']
+            if lids and lids[-1] in s.lval and any(re.search(rx, s.lval[lids[-1]][0]) for rx in IMMUT): return False
         if op in ('load', 'store', 'cmpxchg', 'atomicrmw', 'fence', 'unreachable', 'udiv', 'sdiv', 'urem', 'srem', 'landingpad', 'resume'):
             return True
         if op == 'invoke': return False      # numbered inside inst() (the branch after it must stay outside the guard)
         if op == 'call':
             callee = [v for k, v in toks if k == 'gid']
+            if callee and PURE and any(c in callee[0] for c in PURE): return False   # --pure: side-effect-free deterministic stub, re-evaluated on every replay (keeps its result a constant for the solver)
             if callee and callee[0].startswith('@llvm.'):
                 c = callee[0]
                 if 'lifetime' in c or 'dbg' in c or c.startswith('@llvm.assume') or 'expect' in c: return False
-                if any(x in c for x in ('umax', 'umin', 'smax', 'smin', 'ctlz', 'cttz', 'with.overflow')): return False
+                if any(x in c for x in ('umax', 'umin', 'smax', 'smin', 'ctlz', 'cttz', 'ctpop', 'bitreverse', 'with.overflow')): return False
             return True
         return False
 
@@ -895,6 +926,60 @@ class FnTr:
         order = list(reversed(post))
         return order, back
 
+    def loop_order(s, parsed):
+        """order of the reachable blocks: topological over SCCs; inside an SCC (= loop, entered at its header) recursively
+        the same with the edges into the header removed. Irreducible regions fall back to the order found."""
+        s.cfg_order(parsed)
+        succ = s.succ
+        def sccs(nodes, entry, removed_to):
+            # Tarjan (iterative) over the subgraph `nodes` without edges into removed_to; returns SCCs in reverse topological order
+            idx = {}; low = {}; onst = set(); st = []; out = []; cnt = [0]
+            def ss(n): return [m for m in succ[n] if m in nodes and m != removed_to]
+            for root in [entry] + [n for n in nodes if n != entry]:
+                if root in idx: continue
+                work = [(root, iter(ss(root)))]; idx[root] = low[root] = cnt[0]; cnt[0] += 1; st.append(root); onst.add(root)
+                while work:
+                    n, it = work[-1]
+                    adv = False
+                    for m in it:
+                        if m not in idx:
+                            idx[m] = low[m] = cnt[0]; cnt[0] += 1; st.append(m); onst.add(m)
+                            work.append((m, iter(ss(m)))); adv = True; break
+                        elif m in onst: low[n] = min(low[n], idx[m])
+                    if adv: continue
+                    work.pop()
+                    if work: low[work[-1][0]] = min(low[work[-1][0]], low[n])
+                    if low[n] == idx[n]:
+                        comp = []
+                        while True:
+                            x = st.pop(); onst.discard(x); comp.append(x)
+                            if x == n: break
+                        out.append(comp)
+            return out
+        def order(nodes, entry, removed_to):
+            res = []
+            comps = list(reversed(sccs(nodes, entry, removed_to)))
+            for comp in comps:
+                if len(comp) == 1:
+                    res.append(comp[0]); continue
+                cs = set(comp)
+                # header: the member with a predecessor outside the component (or the region entry)
+                heads = [n for n in comp if n == entry or any(n in succ[p] for p in nodes if p not in cs)]
+                if not heads: heads = [n for n in comp if any(n in succ[p] for p in succ if p not in cs)]
+                h = heads[0] if heads else comp[0]
+                if len(heads) > 1:   # irreducible: keep the discovery order
+                    res.extend(sorted(comp, key=list(parsed).index)); continue
+                res.extend(order(cs, h, h))
+            return res
+        reach = set(); stack = [next(iter(parsed))]
+        while stack:
+            n = stack.pop()
+            if n in reach: continue
+            reach.add(n); stack.extend(succ[n])
+        o = order(reach, next(iter(parsed)), None)
+        assert o[0] == next(iter(parsed)) and len(o) == len(reach) == len(set(o)), 'loop_order lost blocks'
+        return o
+
     def classify_loops(s, parsed):
         """every back edge (n -> h) gets a kind:
            'delay': the loop body has no visible operation except pause/yield  -> the back edge is dropped (falls out of the loop)
@@ -925,8 +1010,10 @@ class FnTr:
     def label(s, bn):
         return 'B_' + re.sub(r'[^A-Za-z0-9_]', '_', bn[1:])
 
-    def goto(s, target):
-        """emit phi copies for edge curblock->target then goto"""
+    def goto(s, target, fall=None):
+        """emit phi copies for edge curblock->target then goto.
+        fall (only with --fallthrough): forward successor of the same conditional branch; a cut back edge then disables the
+        rest of the slice (vp_cs = 0) and continues along `fall` instead of jumping to END (no N-way state merge at END)."""
         E = s.E
         ph = s.phis.get(target, [])
         moves = []
@@ -949,8 +1036,18 @@ class FnTr:
                 out.append('%s = %s;' % (s.setv(d, ty), t))
         if s.thread and (s.curblock, target) in s.backedges:
             kind = s.loopkind[(s.curblock, target)]
+            if kind == 'spin':
+                # a parked thread whose loop-carried value was refreshed from memory (e.g. the `expected` of a CAS retry loop)
+                # has made progress: it must not be taken for deadlocked by the blocked-state oracle (back-off counters,
+                # which depend only on themselves, do not count)
+                chk = ['if (%s != %s) vp_changed = 1;' % (E.lname(d), (tmps[i] if len(moves) > 1 else E.val(v)))
+                       for i, (d, ty, v) in enumerate(moves) if d in s.memderived and not isinstance(E.resolve(ty), (TStruct, TArr))]
+                out = chk + out if len(moves) == 1 else out[:len(moves)] + chk + out[len(moves):]
             s.nvis += 1
             s.cuts.append((s.nvis, target, kind))
+            if FALLTHROUGH and fall is not None:
+                cut = 'G(%d) { %s %svp_jump = 1; vp_resume = FIRST_%s; vp_cs = 0; }' % (s.nvis, ' '.join(out), 'vp_blocked = 1; ' if kind == 'spin' else '', s.label(target))
+                return '{ %s %s }' % (cut, s.goto(fall))
             if kind == 'spin':
                 return '{ G(%d) { %s vp_blocked = 1; vp_jump = 1; vp_resume = FIRST_%s; } goto END; }' % (s.nvis, ' '.join(out), s.label(target))
             return '{ G(%d) { %s vp_jump = 1; vp_resume = FIRST_%s; } goto END; }' % (s.nvis, ' '.join(out), s.label(target))
@@ -994,10 +1091,24 @@ class FnTr:
                 t, c = s.tv(p); p.expect(','); p.expect('label'); a = p.next()[1]; p.expect(','); p.expect('label'); b = p.next()[1]
                 if s.thread and a != b and s.loopkind.get((s.curblock, a)) == 'delay' and (s.curblock, b) not in s.backedges: emit(s.goto(b))
                 elif s.thread and a != b and s.loopkind.get((s.curblock, b)) == 'delay' and (s.curblock, a) not in s.backedges: emit(s.goto(a))
+                elif s.thread and FALLTHROUGH and a != b and (s.curblock, a) in s.backedges and (s.curblock, b) not in s.backedges:
+                    emit('if (%s) %s else %s' % (E.val(c), s.goto(a, fall=b), s.goto(b)))
+                elif s.thread and FALLTHROUGH and a != b and (s.curblock, b) in s.backedges and (s.curblock, a) not in s.backedges:
+                    emit('if (%s) %s else %s' % (E.val(c), s.goto(a), s.goto(b, fall=a)))
                 else: emit('if (%s) %s else %s' % (E.val(c), s.goto(a), s.goto(b)))
             return
         if op == 'switch':
             t, v = s.tv(p); p.expect(','); p.expect('label'); dflt = p.next()[1]; p.expect('[')
+            if M1PTR and v.kind == 'local' and E.lname(v.name) in s.__dict__.get('p2i', {}):
+                # --m1ptr: LLVM's "magicptr" switch over ptrtoint(p) with cases 0 / -1 becomes pointer comparisons
+                pe, pct = s.p2i[E.lname(v.name)]; cases = []
+                while not p.accept(']'):
+                    ct, cv = s.tv(p); p.expect(','); p.expect('label'); l = p.next()[1]
+                    if cv.kind != 'int' or (cv.val & ((1 << 64) - 1)) not in (0, (1 << 64) - 1): raise NotImplementedError('--m1ptr: switch over a pointer value with case %r' % cv.val)
+                    cases.append(('((%s)0)' % pct if cv.val == 0 else '((%s)&vp_m1_obj)' % pct, l))
+                for ce, l in cases: emit('if (%s == %s) %s' % (pe, ce, s.goto(l)))
+                emit(s.goto(dflt))
+                return
             emit('switch (%s) {' % E.val(v))
             while not p.accept(']'):
                 ct, cv = s.tv(p); p.expect(','); p.expect('label'); l = p.next()[1]
@@ -1016,7 +1127,9 @@ class FnTr:
                 if not p.at('align'):
                     nt, nv = s.tv(p); n = E.val(nv)
             d = s.setv(dest, TPtr(t))
-            st = s.tmp(E.ct(t)) if n == '1' else None
+            al = [int(p.t[i + 1][1]) for i in range(p.i, len(p.t) - 1) if p.t[i][1] == 'align' and p.t[i + 1][0] == 'int']
+            # over-aligned stack objects (alignas(128) runner of collaborative_call_once: low address bits carry a count) keep their alignment
+            st = s.tmp(E.ct(t) + (' __attribute__((aligned(%d)))' % al[0] if al and al[0] > 16 else '')) if n == '1' else None
             if st is None:
                 raise NotImplementedError('dynamic alloca')
             emit('%s = &%s;' % (d, st))
@@ -1028,7 +1141,8 @@ class FnTr:
             if s.thread and TSO and isinstance(E.resolve(t), (TInt, TPtr)):
                 emit('%s = (%s)SB_LOAD(%s, sizeof(%s));' % (d, E.ct(t), E.val(pv), E.ct(t)))
             else:
-                emit('%s = *%s;' % (d, E.val(pv)))
+                lv, rd, wr = s.leafacc(pv, t)
+                emit('%s = %s;' % (d, rd(lv)))
             return
         if op == 'store':
             atomic = p.accept('atomic'); p.accept('volatile')
@@ -1042,8 +1156,9 @@ class FnTr:
                 emit('SB_STORE(%s, (u64)%s, sizeof(%s));' % (E.val(pv), E.val(v), E.ct(t)))
                 if ordering == 'seq_cst': emit('SB_FLUSH_ALL();')
                 return
-            if s.thread: emit('if (*%s != %s) vp_changed = 1;' % (E.val(pv), E.val(v)))
-            emit('*%s = %s;' % (E.val(pv), E.val(v)))
+            lv, rd, wr = s.leafacc(pv, t)
+            chg = (lambda l: 'if (%s != %s) vp_changed = 1; ' % (rd(l), E.val(v))) if s.thread else (lambda l: '')
+            emit(s.split_idx(lv, lambda l: chg(l) + '%s = %s;' % (l, wr(E.val(v)))))
             if ordering == 'seq_cst':
                 emit(s.fence_full())
             return
@@ -1061,8 +1176,9 @@ class FnTr:
             d = s.setv(dest, rty)
             ptr = E.val(pv)
             if s.thread and TSO: emit('SB_FLUSH_ALL();')
-            emit('%s.f0 = *%s; %s.f1 = (%s.f0 == %s); if (%s.f1) { if (*%s != %s) vp_changed = 1; *%s = %s; }' % (
-                d, ptr, d, d, E.val(cv), d, ptr, E.val(nv), ptr, E.val(nv)))
+            lv, rd, wr = s.leafacc(pv, ct_)
+            emit('%s.f0 = %s; %s.f1 = (%s.f0 == %s); if (%s.f1) { if (%s.f0 != %s) vp_changed = 1; %s }' % (
+                d, rd(lv), d, d, E.val(cv), d, d, E.val(nv), s.split_idx(lv, lambda l: '%s = %s;' % (l, wr(E.val(nv))))))
             return
         if op == 'atomicrmw':
             p.accept('volatile')
@@ -1077,32 +1193,53 @@ class FnTr:
                 new = '(%s %s %s ? %s : %s)' % (d, '>' if rop == 'umax' else '<', x, d, x)
             else: raise NotImplementedError('atomicrmw ' + rop)
             if s.thread and TSO: emit('SB_FLUSH_ALL();')
-            emit('%s = *%s; *%s = %s; if (*%s != %s) vp_changed = 1;' % (d, ptr, ptr, new, ptr, d))
+            lv, rd, wr = s.leafacc(pv, vt)
+            emit('%s = %s; %s if (%s != %s) vp_changed = 1;' % (d, rd(lv), s.split_idx(lv, lambda l: '%s = %s;' % (l, wr(new))), new, d))
             return
         if op == 'getelementptr':
             p.accept('inbounds')
             bt = p.type(); p.expect(',')
-            ops = []
+            ops = []; gepbase = None
             while True:
                 t, v = s.tv(p); ops.append((t, E.val(v)))
+                if len(ops) == 1 and v.kind == 'local': gepbase = v.name
                 if not p.accept(','): break
             # result type: compute
             rt = s.gep_type(bt, ops)
             d = s.setv(dest, rt)
-            emit('%s = %s;' % (d, E.gep_expr(bt, ops)))
+            syms = []
+            ge = E.gep_expr(bt, ops, syms)
+            emit('%s = %s;' % (d, ge))
+            if LVALPATH and dest and len(ops) > 2 and ge.startswith('(&') and not isinstance(bt, TVoid):
+                lv = ge[2:-1]
+                prefix = '(*((%s*)%s))' % (E.ct(bt), ops[0][1])
+                if ops[1][1] in ('((u64)0ull)', '((u32)0ull)') and lv.startswith(prefix) and gepbase is not None and gepbase in s.lval \
+                   and E.ct(s.lval[gepbase][1]) == E.ct(bt):
+                    lv = s.lval[gepbase][0] + lv[len(prefix):]; syms = s.lval[gepbase][2] + syms
+                s.lval[dest] = (lv, rt.to, syms)
             return
         # ---------------- casts
         if op in ('bitcast', 'inttoptr', 'ptrtoint', 'zext', 'sext', 'trunc', 'uitofp', 'sitofp', 'fptoui', 'fptosi', 'fpext', 'fptrunc', 'addrspacecast'):
             t, v = s.tv(p); p.expect('to'); t2 = p.type()
             d = s.setv(dest, t2)
             a = E.val(v)
+            if M1PTR and op == 'ptrtoint': s.__dict__.setdefault('p2i', {})[d] = (a, E.ct(t))   # remembered for a later switch on it
             if op in ('bitcast', 'addrspacecast'):
                 if isinstance(E.resolve(t), TPtr) and isinstance(E.resolve(t2), TPtr):
                     emit('%s = (%s)%s;' % (d, E.ct(t2), a))
+                    if LVALPATH and dest:
+                        to2 = E.resolve(E.resolve(t2).to)
+                        if isinstance(to2, (TInt, TPtr)):
+                            if v.kind == 'local' and v.name in s.lval: blv, bty, bsy = s.lval[v.name]
+                            else: blv, bty, bsy = '(*%s)' % a, E.resolve(t).to, []
+                            ld = s.leaf_desc(bty)
+                            if ld:
+                                w = lambda x: 64 if isinstance(E.resolve(x), TPtr) else E.resolve(x).n
+                                if w(ld[1]) == w(to2): s.lval[dest] = (blv + ld[0], ld[1], bsy)
                 else:
                     emit('memcpy(&%s, &%s, sizeof(%s));' % (d, s.materialize(t, a), d))
-            elif op == 'inttoptr': emit('%s = (%s)(u64)%s;' % (d, E.ct(t2), a))
-            elif op == 'ptrtoint': emit('%s = %s;' % (d, E.mask(t2, '(%s)(u64)%s' % (E.ct(t2), a))))
+            elif op == 'inttoptr': emit('%s = (%s)%s(u64)%s%s;' % (d, E.ct(t2), 'vp_i2p(' if PTRHOOKS else '', a, ')' if PTRHOOKS else ''))   # --ptrhooks: harness resolves the integer to a candidate object (cbmc cannot: unknown value set)
+            elif op == 'ptrtoint': emit('%s = %s;' % (d, E.mask(t2, '(%s)%s' % (E.ct(t2), ('vp_p2i((u8*)%s)' if PTRHOOKS else '(u64)%s') % a))))
             elif op in ('zext', 'trunc'): emit('%s = %s;' % (d, E.mask(t2, '(%s)%s' % (E.ct(t2), a))))
             elif op == 'sext': emit('%s = %s;' % (d, E.mask(t2, '(%s)(%s)%s' % (E.ct(t2), E.sct(t2), E.sext_to_c(t, a)))))
             elif op == 'uitofp': emit('%s = (%s)%s;' % (d, E.ct(t2), a))
@@ -1116,7 +1253,12 @@ class FnTr:
             while p.peek()[1] in ('nsw', 'nuw', 'exact'): p.next()
             t = p.type(); a = parse_value(p, t); p.expect(','); b = parse_value(p, t)
             d = s.setv(dest, t)
-            emit('%s = %s;' % (d, E.binop(op, t, E.val(a), E.val(b))))
+            bv = E.val(b)
+            if s.thread and op in ('shl', 'lshr', 'ashr') and isinstance(t, TInt) and not re.fullmatch(r'[(\w)]*\d+ull\)*', bv.replace(' ', '')):
+                # thread mode: unguarded straight-line code is also evaluated on stale values (ops beyond the context switch); an
+                # over-wide shift there would be C undefined behaviour (LLVM: poison, harmless unless used) => mask the amount
+                bv = '(%s & %du)' % (bv, t.n - 1)
+            emit('%s = %s;' % (d, E.binop(op, t, E.val(a), bv)))
             return
         if op in ('fadd', 'fsub', 'fmul', 'fdiv'):
             while p.peek()[0] == 'word' and p.peek()[1] in ('fast', 'nnan', 'ninf', 'nsz', 'arcp', 'contract', 'afn', 'reassoc'): p.next()
@@ -1225,6 +1367,50 @@ class FnTr:
             if callee[1:].startswith('vp_') and callee[1:] not in ('vp_body', 'vp_throwing') and not callee[1:].startswith('vp_may_throw'): return False
         return True
 
+    def leaf_desc(s, t):
+        """(path suffix, IR type) of the first scalar leaf of IR type t, or None"""
+        E = s.E; path = ''
+        for _ in range(32):
+            r = E.resolve(t)
+            if isinstance(r, TStruct):
+                if not r.els: return None
+                path += '.f0'; t = r.els[0]
+            elif isinstance(r, TArr): path += '.a[0]'; t = r.el
+            elif isinstance(r, (TPtr, TInt)): return path, t
+            else: return None
+        return None
+
+    def leafacc(s, pv, t):
+        """(lvalue, rd, wr): how to access a value of IR type t through pointer operand pv (see LVALPATH)"""
+        E = s.E; ptr = E.val(pv); s.acc_syms = []
+        if LVALPATH and not TSO and pv.kind == 'local' and pv.name in s.lval:
+            lv, lt, s.acc_syms = s.lval[pv.name]
+            rt = E.resolve(t); rl = E.resolve(lt)
+            if E.ct(t) == E.ct(lt): return lv, (lambda x: x), (lambda x: x)
+            if isinstance(rl, TPtr) and isinstance(rt, TInt) and rt.n == 64:
+                return lv, (lambda x: '((u64)%s)' % x), (lambda x: '((%s)(u64)%s)' % (E.ct(lt), x))
+            if isinstance(rl, TInt) and rl.n == 64 and isinstance(rt, TPtr):
+                return lv, (lambda x: '((%s)(u64)%s)' % (E.ct(t), x)), (lambda x: '((u64)%s)' % x)
+            if isinstance(rl, TPtr) and isinstance(rt, TPtr):
+                return lv, (lambda x: '((%s)%s)' % (E.ct(t), x)), (lambda x: '((%s)%s)' % (E.ct(lt), x))
+        s.acc_syms = []
+        return '*%s' % ptr, (lambda x: x), (lambda x: x)
+
+    def split_idx(s, lv, body):
+        """--lvalpath: statement(s) body(lv) that WRITE lvalue lv. If lv contains small arrays indexed by non-constant expressions
+        (s.acc_syms, set by leafacc), emit a switch over the index values with a constant index in every case: cbmc then assigns one
+        field instead of rewriting the whole array (field-sensitive arrays) / the whole object at a symbolic offset."""
+        syms = [(sx, n) for sx, n in s.acc_syms if n <= 16 and lv.count('.a[%s]' % sx) == 1]
+        tot = 1
+        for sx, n in syms: tot *= n
+        if not syms or tot > 64: return body(lv)
+        def rec(lv, k):
+            if k == len(syms): return body(lv)
+            sx, n = syms[k]
+            cases = ' '.join('case %d: { %s } break;' % (i, rec(lv.replace('.a[%s]' % sx, '.a[%d]' % i), k + 1)) for i in range(n))
+            return 'switch (%s) { %s default: vp_unreachable(); }' % (sx, cases)
+        return rec(lv, 0)
+
     def materialize(s, t, a):
         tmp = s.tmp(s.E.ct(t))
         s.code.append('%s = %s;' % (tmp, a))
@@ -1268,6 +1454,8 @@ class FnTr:
             if 'lock; notb' in asm: emit(s.fence_full())
             elif asm.startswith('"bsr'): emit('%s = vp_bsr(%s);' % (d, A[0]))
             elif asm == '""': emit('/* compiler barrier */;')
+            elif 'stmxcsr' in asm and 'fstcw' in asm: emit('*%s = 0x1f80u; *%s = 0x37f; /* FP control words: default environment */' % (A[0], A[1]))
+            elif 'ldmxcsr' in asm or 'fldcw' in asm: emit('/* load FP control words: no effect in the model */;')
             else: raise NotImplementedError('asm '+asm)
             return
         if p.at('('):
@@ -1321,6 +1509,7 @@ class FnTr:
         blockchk = ''
         if invoke: s.nvis += 1       # invoke is numbered here (see visible()); plain calls were numbered by run()
         kidx = s.nvis
+        if external and PURE and k == 'gid' and any(c in callee for c in PURE): external = False
         if external:
             # an external stub may ask to park the calling thread (VP_BLOCK() in rt/vp.h): the call is re-executed when the thread runs next
             blockchk = ' if (vp_block_req) { vp_block_req = 0; vp_blocked = 1; vp_jump = 1; vp_resume = %d; goto END; }' % kidx
@@ -1379,6 +1568,9 @@ class FnTr:
                     tmp = s.tmp(big)
                     emit('%s = (%s)%s %s (%s)%s; %s.f0 = (%s)%s; %s.f1 = (%s >> %d) != 0;' % (tmp, big, A[0], sym, big, A[1], d, E.ct(t), tmp, d, tmp, w))
                 return
+        m = re.match(r'llvm\.bitreverse\.i(\d+)', name)
+        if m and int(m.group(1)) in (8, 16, 32, 64):
+            emit('%s = vp_bitreverse%s(%s);' % (d, m.group(1), A[0])); return
         m = re.match(r'llvm\.(fshl|fshr|bswap|abs)\.', name)
         raise NotImplementedError('intrinsic ' + name)
 
@@ -1391,6 +1583,7 @@ typedef void (*vp_fn)(void);
 typedef void vp_fnty(void);
 void vp_pause(void); void vp_trap(void); void vp_unreachable(void); extern unsigned vp_left; extern unsigned vp_changed; extern unsigned vp_block_req;
 extern u8* vp_exc; int vp_exc_matches(u8* obj, u8* typeinfo); void vp_exc_escaped(void);
+u8* vp_i2p(u64 bits); u64 vp_p2i(u8* p);   /* --ptrhooks: defined by the harness */
 #define G(k) if (vp_pc <= (k) && (k) < vp_cs)
 #define SBD 2
 struct vp_sb { void* a[SBD]; u64 v[SBD]; u8 sz[SBD]; unsigned n; };
@@ -1408,21 +1601,44 @@ static inline u64 vp_cttz64(u64 x){ return x ? (u64)__builtin_ctzll(x) : 64u; }
 static inline u32 vp_cttz32(u32 x){ return x ? (u32)__builtin_ctz(x) : 32u; }
 static inline u64 vp_ctpop64(u64 x){ return (u64)__builtin_popcountll(x); }
 static inline u32 vp_ctpop32(u32 x){ return (u32)__builtin_popcount(x); }
+static inline u8 vp_bitreverse8(u8 x){ x = (u8)(((x & 0xF0u) >> 4) | ((x & 0x0Fu) << 4)); x = (u8)(((x & 0xCCu) >> 2) | ((x & 0x33u) << 2)); return (u8)(((x & 0xAAu) >> 1) | ((x & 0x55u) << 1)); }
+static inline u16 vp_bitreverse16(u16 x){ return (u16)(((u16)vp_bitreverse8((u8)x) << 8) | vp_bitreverse8((u8)(x >> 8))); }
+static inline u32 vp_bitreverse32(u32 x){ return ((u32)vp_bitreverse16((u16)x) << 16) | vp_bitreverse16((u16)(x >> 16)); }
+static inline u64 vp_bitreverse64(u64 x){ return ((u64)vp_bitreverse32((u32)x) << 32) | vp_bitreverse32((u32)(x >> 32)); }
 '''
 
 TSO = False
+FALLTHROUGH = False   # --fallthrough: cut back edges of conditional latches fall through to the loop exit with the slice disabled
+M1PTR = False      # --m1ptr: the sentinel pointer constant (T*)-1 is modelled as the address of the object vp_m1_obj (cbmc cannot decide &obj != (T*)-1 during symbolic execution); only equality tests of it are supported
+LOOPORDER = False  # --looporder: seq-mode block layout with contiguous loops (see FnTr.loop_order)
+PURE = []          # --pure <substr>: calls to matching (external/cut) functions are not scheduling points and are not guarded in thread mode
+IMMUT = []         # --immutable <regex>: see FnTr.visible
+LVALPATH = False   # --lvalpath: a load/store/cmpxchg/atomicrmw whose pointer operand is the result of a getelementptr (or of a bitcast of one to a
+                   # scalar pointer, e.g. atomic<T*> accessed as i64) is emitted on the field-path lvalue itself (`(*base).f0.a[i].f3 = x`, with a
+                   # value cast for pointer<->i64 leaves) instead of `*ptr`: cbmc then sees a typed member/index expression even for a symbolic
+                   # array index, where a pointer dereference degenerates into byte_update of the whole enclosing object at a symbolic offset
+PTRHOOKS = False   # --ptrhooks: inttoptr/ptrtoint instructions go through harness functions u8* vp_i2p(u64) / u64 vp_p2i(u8*)
 def main():
     """usage: ir2c.py in.ll outbase [--tso] [--thread fn[:sfx1,sfx2,...]]...
     writes outbase.h (types, prototypes, extern globals), outbase.c (globals, bodies), outbase.json (summary)"""
-    global TSO
+    global TSO, PTRHOOKS, LOOPORDER, LVALPATH
     import json, os
     args = sys.argv[1:]
     TSO = '--tso' in args
+    global FALLTHROUGH
+    global M1PTR
+    FALLTHROUGH = '--fallthrough' in args
+    PTRHOOKS = '--ptrhooks' in args
+    LVALPATH = '--lvalpath' in args
+    PURE[:] = [args[i + 1] for i, a in enumerate(args) if a == '--pure']
+    IMMUT[:] = [args[i + 1] for i, a in enumerate(args) if a == '--immutable']
+    LOOPORDER = '--looporder' in args
+    M1PTR = '--m1ptr' in args
     pos = []
     skip = False
     for a in args:
         if skip: skip = False; continue
-        if a in ('--thread', '--cut'): skip = True; continue
+        if a in ('--thread', '--cut', '--pure', '--immutable'): skip = True; continue
         if not a.startswith('--'): pos.append(a)
     src, base = pos[0], pos[1]
     threads = collections.OrderedDict()
@@ -1516,9 +1732,11 @@ def main():
         o.write('\n'.join(structs) + '\n')
         o.write('\n'.join(protos) + '\n')
         o.write('\n'.join(gdecl) + '\n')
+        if M1PTR: o.write('extern u8 vp_m1_obj;\n')
         o.write('#endif\n')
     with open(base + '.c', 'w') as o:
         o.write('#include "%s.h"\n' % os.path.basename(base))
+        if M1PTR: o.write('u8 vp_m1_obj;\n')
         o.write('\n'.join(globs) + '\n')
         o.write('\n\n'.join(bodies) + '\n')
     json.dump(summary, open(base + '.json', 'w'), indent=1)
